@@ -779,3 +779,129 @@ Lemma SItx_frame c m g c' m' g' :
 Proof.
   unfold SItx, tx_in_flight. intros H A B C D E F G I J. rewrite A, B, C, D, E, F, G, I, J. exact H.
 Qed.
+
+(* ---- transmit direction ---- *)
+
+Lemma data_matches_inv o p s sz h b :
+  data_matches o p s sz h b = true -> has h sn_flag = s /\ (llid h, b) = p.
+Proof.
+  unfold data_matches. rewrite !andb_true_iff. intros [[[[[A B] C] D] E] F].
+  apply N.eqb_eq in A. apply eqb_prop in B. apply leqb_eq in D. split; auto.
+  destruct p; simpl in *. congruence.
+Qed.
+
+Lemma empty_matches_inv o s sz h b :
+  empty_matches o s sz h b = true -> has h sn_flag = s /\ b = [].
+Proof.
+  unfold empty_matches. rewrite !andb_true_iff. intros [[[[[A B] C] D] E] F].
+  apply eqb_prop in B. apply leqb_eq in D. auto.
+Qed.
+
+Lemma check_resp_nesn tag m sz h b m' :
+  check_resp tag m sz h b = (Ok, m') ->
+  has h nesn_flag = m_nesn m /\ m_nesn m' = m_nesn m /\ m_rxq m' = m_rxq m /\ m_o m' = m_o m.
+Proof.
+  unfold check_resp. intros H.
+  destruct (Bool.eqb (has h nesn_flag) (m_nesn m)) eqn:E; simpl in H; [|discriminate].
+  apply eqb_prop in E. split; auto.
+  destruct (m_txdead m); [inversion H; subst; auto|].
+  destruct (m_cur m).
+  - destruct (m_txq m).
+    + destruct (empty_matches _ _ _ _ _); inversion H; subst; simpl; auto.
+    + destruct (data_matches _ _ _ _ _ _); inversion H; subst; simpl; auto.
+  - destruct (empty_matches _ _ _ _ _); inversion H; subst; simpl; auto.
+  - destruct (m_txq m).
+    + inversion H.
+    + destruct (data_matches _ _ _ _ _ _); inversion H; subst; simpl; auto.
+Qed.
+
+Lemma counted_empty (x : N) : counted (x, []) = false.
+Proof. reflexivity. Qed.
+
+(* the response: lost, or seen by the central *)
+Lemma SItx_resp c m g tag sz h b m' :
+  SItx c m g -> check_resp tag m sz h b = (Ok, m') ->
+  SItx c m' g /\ SItx (cen_new c h b) m' g.
+Proof.
+  intros (D & St & Fc & Ca & Co & Tc) H. unfold check_resp in H.
+  destruct (negb (Bool.eqb (has h nesn_flag) (m_nesn m))); [discriminate|]. rewrite D in H.
+  unfold cen_new.
+  destruct (m_cur m) as [|se|sd] eqn:Ec.
+  - (* a new PDU is sent *)
+    destruct (m_txq m) as [|p t] eqn:Eq.
+    + destruct (empty_matches (m_o m) (m_sn m) sz h b) eqn:EM; inversion H; subst; clear H.
+      destruct (empty_matches_inv _ _ _ _ _ EM) as (Hs & Hb). subst b.
+      rewrite Hs, St, eqb_reflx.
+      split; unfold SItx, tx_in_flight in *; simpl; rewrite ?Ec, ?Eq in *; simpl in *; repeat split; auto.
+      rewrite filter_app_one, counted_empty, app_nil_r. exact Ca.
+    + destruct (data_matches (m_o m) p (m_sn m) sz h b) eqn:DM; inversion H; subst; clear H.
+      destruct (data_matches_inv _ _ _ _ _ _ DM) as (Hs & Hb).
+      rewrite Hs, St, eqb_reflx. inversion Fc as [|? ? Fp Ft]; subst.
+      split; unfold SItx, tx_in_flight in *; simpl; rewrite ?Ec, ?Eq in *; simpl in *.
+      * rewrite <- St, eqb_reflx. repeat split; auto; try discriminate. congruence.
+      * assert (X : Bool.eqb (negb (m_sn m)) (m_sn m) = false) by (destruct (m_sn m); reflexivity).
+        rewrite X. repeat split; auto; try discriminate.
+        rewrite filter_app_one, Hb, Fp, Ca, app_nil_r. reflexivity.
+  - (* the empty PDU in flight again *)
+    destruct (empty_matches (m_o m) se sz h b) eqn:EM; inversion H; subst; clear H.
+    destruct (empty_matches_inv _ _ _ _ _ EM) as (Hs & Hb). subst b.
+    split; [unfold SItx, tx_in_flight; rewrite Ec; auto 10|].
+    destruct (Bool.eqb (has h sn_flag) (c_nesn c)); [|unfold SItx, tx_in_flight; rewrite Ec; auto 10].
+    unfold SItx, tx_in_flight in *; simpl; rewrite ?Ec in *. repeat split; auto.
+    rewrite filter_app_one, counted_empty, app_nil_r. exact Ca.
+  - (* the data PDU in flight again *)
+    destruct St as [St Ne].
+    destruct (m_txq m) as [|p t] eqn:Eq; [congruence|].
+    destruct (data_matches (m_o m) p sd sz h b) eqn:DM; inversion H; subst; clear H.
+    destruct (data_matches_inv _ _ _ _ _ _ DM) as (Hs & Hb).
+    inversion Fc as [|? ? Fp Ft]; subst.
+    split; [unfold SItx, tx_in_flight; rewrite Ec, Eq; auto 10|].
+    destruct (Bool.eqb (has h sn_flag) (c_nesn c)) eqn:X; [|unfold SItx, tx_in_flight; rewrite Ec, Eq; auto 10].
+    apply eqb_prop in X.
+    unfold SItx, tx_in_flight in *; simpl; rewrite ?Ec, ?Eq in *. simpl in *.
+    rewrite <- X in Ca. rewrite eqb_reflx in Ca. rewrite <- X.
+    assert (Y : Bool.eqb (negb (has h sn_flag)) (has h sn_flag) = false) by (destruct (has h sn_flag); reflexivity).
+    rewrite Y. repeat split; auto.
+    rewrite filter_app_one, Fp, Ca, app_nil_r. reflexivity.
+Qed.
+
+Lemma firstn1_app (A : Type) (l : list A) x : l <> [] -> firstn 1 (l ++ [x]) = firstn 1 l.
+Proof. destruct l; simpl; congruence. Qed.
+
+(* the central's NESN reaches the peripheral *)
+Lemma SItx_ack c m g m1 etc :
+  SItx c m g -> m_ack m (c_nesn c) = (m1, etc) ->
+  SItx c m1 (g_count (ack_ghost m g (c_nesn c)) 0 etc) /\
+  m_nesn m1 = m_nesn m /\ m_rxq m1 = m_rxq m.
+Proof.
+  intros (D & St & Fc & Ca & Co & Tc) M. unfold m_ack in M. unfold ack_ghost. rewrite D in *.
+  destruct (m_cur m) as [|se|sd] eqn:Ec.
+  - rewrite <- St, eqb_reflx in M. inversion M; subst; clear M. split; auto.
+    unfold SItx, tx_in_flight. simpl. rewrite Ec. repeat split; auto. lia.
+  - destruct (Bool.eqb se (c_nesn c)) eqn:X; inversion M; subst; clear M; (split; [|auto]).
+    + unfold SItx, tx_in_flight. simpl. rewrite Ec. repeat split; auto. lia.
+    + unfold SItx, tx_in_flight in *. simpl. rewrite Ec in *. repeat split; auto; try lia.
+      destruct se, (c_nesn c); simpl in *; congruence.
+  - destruct St as [St Ne].
+    assert (XY : Bool.eqb sd (c_nesn c) = Bool.eqb (c_nesn c) sd) by (destruct sd, (c_nesn c); reflexivity).
+    destruct (Bool.eqb sd (c_nesn c)) eqn:X; inversion M; subst; clear M; (split; [|auto]).
+    + unfold SItx, tx_in_flight. simpl. rewrite Ec. repeat split; auto. lia.
+    + unfold SItx, tx_in_flight in *. simpl. rewrite Ec in *. rewrite <- XY in Ca.
+      destruct (m_txq m) as [|p t] eqn:Eq; [congruence|]. simpl in *.
+      inversion Fc; subst. repeat split; auto.
+      * destruct sd, (c_nesn c); simpl in *; congruence.
+      * rewrite app_nil_r. exact Ca.
+      * rewrite <- app_assoc. exact Co.
+      * rewrite nlen_app_one. lia.
+Qed.
+
+Lemma ack_ghost_rx m g b :
+  g_acc (ack_ghost m g b) = g_acc g /\ g_freed (ack_ghost m g b) = g_freed g /\ g_rxc (ack_ghost m g b) = g_rxc g.
+Proof.
+  unfold ack_ghost. destruct (m_txdead m); auto. destruct (m_cur m); auto. destruct (Bool.eqb _ _); auto.
+Qed.
+
+Lemma tc_ok_inv m tc etc : m_txdead m = false -> negb (tc_ok m tc etc) = false -> tc = etc.
+Proof.
+  unfold tc_ok. intros D H. rewrite D in H. simpl in H. apply negb_false_iff, N.eqb_eq in H. exact H.
+Qed.
